@@ -292,7 +292,7 @@ def owners(div):
                 a = ek[i] if i < len(ek) else {}
                 b = ok_[i] if i < len(ok_) else {}
                 fields |= {k for k in set(a) | set(b) if a.get(k) != b.get(k)}
-            own |= ({"C03"} if "cenv" in fields else set()) | ({"C11"} if (fields - {"cenv"}) or not fields else set())
+            own |= ({"C03"} if "cenv" in fields else set()) | ({"C10"} if "cw" in fields else set()) | ({"C11"} if (fields - {"cenv", "cw"}) or not fields else set())
         return own
     if fn in ("start", "fork", "clone_start", "method", "consts") and isinstance(div.get("call"), dict) and "op" in div.get("call"):
         return {"C19"}
@@ -371,6 +371,8 @@ def owners_key(fn, key, exp, obs):
         return {"C16"}
     if key in ("cw", "pp", "cnb"):
         return {"C10"}
+    if key == "pnb":
+        return {"C17"}
     if key == "cx":
         return {"C11"}
     if key in ("pmask", "pdisp", "pcwd", "penv", "cmask", "cdisp"):
@@ -1304,7 +1306,7 @@ PROPS = {
     "C07": {"families": ["stop", "free"], "title": "stop sequences"},
     "C03": {"families": ["env", "env2", "faults", "conc", "real"], "title": "launch fidelity: argv, environment, working directory, program resolution"},
     "C12": {"families": ["env", "env2", "faults", "conc", "threads", "real"], "title": "start leaves the caller untouched and gives the child a clean signal state"},
-    "C10": {"families": ["wiring", "restart", "real"], "title": "each standard stream is connected exactly where the options say"},
+    "C10": {"families": ["wiring", "restart", "conc", "real"], "title": "each standard stream is connected exactly where the options say"},
     "C11": {"families": ["wiring", "env2", "conc", "real"], "title": "nothing else is inherited"},
     "C13": {"families": ["options", "optprod", "threads"], "title": "options rejected up front, accepted as documented"},
     "C04": {"families": ["faults", "env", "env2", "wiring", "restart"], "title": "start is all-or-nothing and reports the real cause"},
@@ -1323,7 +1325,7 @@ PROPS = {
     # (thorough: the destroy scripts also run through the C++ destructor in C16's cxx family)
     "C15": {"families": ["destroy", "restart", "free"], "title": "destroy applies the stop policy"},
     "C16": {"families": ["drain", "run", "nest", "cxx", "free"], "title": "drain and run"},
-    "C17": {"families": ["stream", "threads", "free"], "title": "nonblocking never blocks; blocking waits only for the child"},
+    "C17": {"families": ["stream", "wiring", "threads", "free"], "title": "nonblocking never blocks; blocking waits only for the child"},
     "C08": {"families": ["poll", "restart", "free"], "title": "deadlines and timeouts bound every wait and poll"},
     "C09": {"families": ["poll", "stream", "threads", "free"], "title": "poll reports exactly the true events"},
 }
